@@ -112,11 +112,126 @@ let cpp_command (toks : string list) : string =
   | ["xalign"; off; n] -> show_u64 (align_offset_to (sp [] "0" off) (parse_u64 n)).sp_off
   | _ -> "ERR unknown command"
 
+(* ---- Python Serializer / Deserializer: one line = one op sequence -------------------------------------------
+   pyser <n> <op>;<op>;...   -> <offset> <whole buffer>          | EXC@<index of the raising op>
+   pydes <buf> <op>;<op>;... -> <r1>,<r2>,...,<final offset>     | EXC@<index>
+   ops (fields separated by ':'):
+     sk:k  pad:n  bit:0|1  ub:<hex>  ab:<hex>  au:v:bits  uu:v:bits  as:v:bits  us:v:bits  u8:x u16:x u32:x u64:x  i8:x .. i64:x
+     abits:<0/1 string>  ubits:<0/1 string>  af:<size>:<double hex>:<packed hex>  uf:... (floats: the model appends <packed>)
+     aa:<dtype>:<hex>  ua:<dtype>:<hex>   (arrays of standard primitives given by their little-endian bytes)
+     fork:n ... join
+   des ops: sk:k pad:n ab:count ub:count au:bits uu:bits as:bits us:bits u8 u16 u32 u64 i8 i16 i32 i64 bit abits:count ubits:count
+            af:size uf:size (bytes of the float) rem fork:n ... join *)
+exception Raised
+let z_of_string (s : string) : z =
+  (* arbitrary precision not needed: the harness stays within int64 for signed arguments *)
+  z_of_i64 (Int64.of_string s)
+let rec n_of_dec (s : string) : n = parse_u64 s
+let show_z (x : z) : string = show_i64 x
+let bits_of_string s = List.init (String.length s) (fun i -> s.[i] = '1')
+let string_of_bits l = if l = [] then "-" else String.concat "" (List.map (fun b -> if b then "1" else "0") l)
+let get = function Some x -> x | None -> raise Raised
+
+let ser_op (s : ser) (op : string) : ser =
+  match String.split_on_char ':' op with
+  | ["sk"; k] -> skip_bits s (parse_u64 k)
+  | ["pad"; k] -> get (pad_to_alignment s (parse_u64 k))
+  | ["bit"; v] -> get (add_unaligned_bit s (v <> "0"))
+  | ["ub"; h] -> get (add_unaligned_bytes s (parse_buf h))
+  | ["ab"; h] -> get (add_aligned_bytes s (parse_buf h))
+  | ["au"; v; b] -> get (add_aligned_unsigned s (parse_u64 v) (parse_u64 b))
+  | ["uu"; v; b] -> get (add_unaligned_unsigned s (parse_u64 v) (parse_u64 b))
+  | ["as"; v; b] -> get (add_aligned_signed s (z_of_string v) (parse_u64 b))
+  | ["us"; v; b] -> get (add_unaligned_signed s (z_of_string v) (parse_u64 b))
+  | ["u8"; v] -> get (add_aligned_u8 s (parse_u64 v))
+  | ["u16"; v] -> get (add_aligned_u16 s (parse_u64 v))
+  | ["u32"; v] -> get (add_aligned_u32 s (parse_u64 v))
+  | ["u64"; v] -> get (add_aligned_u64 s (parse_u64 v))
+  | ["i8"; v] -> get (add_aligned_ixx (n_of_int 8) s (z_of_string v))
+  | ["i16"; v] -> get (add_aligned_ixx (n_of_int 16) s (z_of_string v))
+  | ["i32"; v] -> get (add_aligned_ixx (n_of_int 32) s (z_of_string v))
+  | ["i64"; v] -> get (add_aligned_ixx (n_of_int 64) s (z_of_string v))
+  | ["abits"; b] -> get (add_aligned_array_of_bits s (bits_of_string (if b = "-" then "" else b)))
+  | ["ubits"; b] -> get (add_unaligned_array_of_bits s (bits_of_string (if b = "-" then "" else b)))
+  | ["aa"; _; h] -> get (add_aligned_bytes s (parse_buf h))        (* x.view(Byte): little-endian memory image *)
+  | ["ua"; _; h] -> get (add_unaligned_bytes s (parse_buf h))
+  | ["af"; _; _; packed] -> get (add_aligned_bytes s (parse_buf packed))
+  | ["uf"; _; _; packed] -> get (add_unaligned_bytes s (parse_buf packed))
+  | _ -> failwith ("bad ser op " ^ op)
+
+let run_pyser (n : string) (ops : string list) : string =
+  let idx = ref 0 in
+  try
+    let rec go (stack : ser list) (s : ser) = function
+      | [] -> (match stack with [] -> s | _ -> failwith "unbalanced fork")
+      | op :: rest ->
+        let k = !idx in
+        incr idx;
+        ignore k;
+        if String.length op > 5 && String.sub op 0 5 = "fork:" then
+          let f = get (ser_fork_bytes s (parse_u64 (String.sub op 5 (String.length op - 5)))) in go (s :: stack) f rest
+        else if op = "join" then
+          (match stack with p :: st -> go st (ser_join p s) rest | [] -> failwith "join without fork")
+        else go stack (ser_op s op) rest in
+    let s = go [] (ser_new (parse_u64 n)) ops in
+    show_u64 s.s_off ^ " " ^ show_buf s.s_buf
+  with Raised -> "EXC@" ^ string_of_int (!idx - 1)
+
+let run_pydes (buf : string) (ops : string list) : string =
+  let idx = ref 0 in
+  let out = ref [] in
+  let emit s = out := s :: !out in
+  try
+    let rec go (stack : des list) (d : des) = function
+      | [] -> d
+      | op :: rest ->
+        incr idx;
+        let d' =
+          match String.split_on_char ':' op with
+          | ["sk"; k] -> des_skip_bits d (parse_u64 k)
+          | ["pad"; k] -> get (des_pad_to_alignment d (parse_u64 k))
+          | ["ab"; c] | ["af"; c] -> let (b, d') = get (fetch_aligned_bytes d (parse_u64 c)) in emit (show_buf b); d'
+          | ["ub"; c] | ["uf"; c] -> let (b, d') = get (fetch_unaligned_bytes d (parse_u64 c)) in emit (show_buf b); d'
+          | ["au"; b] -> let (v, d') = get (fetch_aligned_unsigned d (parse_u64 b)) in emit (show_u64 v); d'
+          | ["uu"; b] -> let (v, d') = get (fetch_unaligned_unsigned d (parse_u64 b)) in emit (show_u64 v); d'
+          | ["as"; b] -> let (v, d') = get (fetch_aligned_signed d (parse_u64 b)) in emit (show_z v); d'
+          | ["us"; b] -> let (v, d') = get (fetch_unaligned_signed d (parse_u64 b)) in emit (show_z v); d'
+          | ["u8"] | ["u16"] | ["u32"] | ["u64"] ->
+            let w = int_of_string (String.sub op 1 (String.length op - 1)) in
+            let (v, d') = get (fetch_aligned_uxx (n_of_int w) d) in emit (show_u64 v); d'
+          | ["i8"] | ["i16"] | ["i32"] | ["i64"] ->
+            let w = int_of_string (String.sub op 1 (String.length op - 1)) in
+            let (v, d') = get (fetch_aligned_ixx (n_of_int w) d) in emit (show_z v); d'
+          | ["bit"] -> let (v, d') = fetch_unaligned_bit d in emit (if v then "1" else "0"); d'
+          | ["abits"; c] -> let (v, d') = get (fetch_aligned_array_of_bits d (parse_u64 c)) in emit (string_of_bits v); d'
+          | ["ubits"; c] -> let (v, d') = get (fetch_unaligned_array_of_bits d (parse_u64 c)) in emit (string_of_bits v); d'
+          | ["rem"] -> emit (show_z (des_remaining d)); d
+          | ["fork"; n] -> get (des_fork_bytes d (parse_u64 n))
+          | ["join"] -> (match stack with p :: _ -> p | [] -> failwith "join without fork")
+          | _ -> failwith ("bad des op " ^ op) in
+        let stack' = match String.split_on_char ':' op with
+          | ["fork"; _] -> d :: stack
+          | ["join"] -> (match stack with _ :: st -> st | [] -> [])
+          | _ -> stack in
+        go stack' d' rest in
+    let d = go [] { d_buf = parse_buf buf; d_off = N0 } ops in
+    String.concat "," (List.rev (show_u64 d.d_off :: !out))
+  with Raised -> "EXC@" ^ string_of_int (!idx - 1)
+
+let py_command (toks : string list) : string =
+  match toks with
+  | ["pyser"; n; ops] -> run_pyser n (String.split_on_char ';' ops)
+  | ["pyser"; n] -> run_pyser n []
+  | ["pydes"; buf; ops] -> run_pydes buf (String.split_on_char ';' ops)
+  | ["pydes"; buf] -> run_pydes buf []
+  | _ -> "ERR unknown command"
+
 let () =
   let cpp = (Array.length Sys.argv = 2 && Sys.argv.(1) = "cpp") in
+  let py = (Array.length Sys.argv = 2 && Sys.argv.(1) = "py") in
   let little = match Sys.argv with
     | [| _; "c-little" |] -> true
-    | [| _; "c-any" |] | [| _; "cpp" |] -> false
+    | [| _; "c-any" |] | [| _; "cpp" |] | [| _; "py" |] -> false
     | _ -> prerr_endline "usage: driver c-any|c-little|cpp"; exit 2 in
   let out = Buffer.create 65536 in
   (try
@@ -125,6 +240,7 @@ let () =
       let ans =
         try
           if cpp then cpp_command (String.split_on_char ' ' (String.trim line)) else
+          if py then py_command (String.split_on_char ' ' (String.trim line)) else
           match String.split_on_char ' ' (String.trim line) with
           | ["sat"; size; off; len] -> show_u64 (saturate_fragment (parse_u64 size) (parse_u64 off) (parse_u64 len))
           | ["cp"; dst; doff; len; src; soff] ->
